@@ -100,6 +100,6 @@ def lazy_cases(draw):
 
 
 PARTS = [
-    Part("random-trees", check, strategy=lambda ctx: cases(PROFILE), budget={"quick": 150, "thorough": 2500}),
-    Part("lazy-coalesce", check, strategy=lambda ctx: lazy_cases(), budget={"quick": 60, "thorough": 800}),
+    Part("random-trees", check, strategy=lambda ctx: cases(PROFILE), budget={"quick": 400, "thorough": 2500}),
+    Part("lazy-coalesce", check, strategy=lambda ctx: lazy_cases(), budget={"quick": 150, "thorough": 800}),
 ]
